@@ -444,6 +444,8 @@ def run(ctx):
     from . import e2e_rules as _e2e
 
     ctx.attempt(_e2e.results_rule, ctx, 'R16.E1')
+    # nodal and per-element forms of the results on a uniform state, single-group and mixed (TRI3 + QUAD4, TRI6 + QUAD8) meshes
+    ctx.attempt(_e2e.patch_test_rule, ctx, 'R16.E2', ['TRI3', 'QUAD4', 'TRI3+QUAD4', 'TRI6+QUAD8'])
     from ..shared import zero_argument_division_rule as _zero_argument_division_rule
 
     ctx.attempt(_zero_argument_division_rule, ctx, "R16.12", scope=lambda f: f.module.name.startswith(("EasyFEA.Models.InElastic", "EasyFEA.Simulations._inelastic")))
